@@ -168,6 +168,8 @@ type fdaCtx struct {
 	mu     sync.Mutex
 	fails  []string
 	nkinds int
+	// some lifecycle of the scenario is knowingly not finished at the end (probe of a known finding)
+	incomplete bool
 }
 
 func (x *fdaCtx) failf(format string, a ...interface{}) {
@@ -869,6 +871,43 @@ func fdaRlimitListenerScenario(x *fdaCtx) {
 	}
 }
 
+// The poll manager grows its pool while descriptors run out: probe for the known gap that the pollers opened by
+// a failing manager.Run are neither registered nor closed (nobody can ever close them).
+func fdaRlimitManagerScenario(x *fdaCtx) {
+	x.usePollManager()
+	var old syscall.Rlimit
+	syscall.Getrlimit(syscall.RLIMIT_NOFILE, &old)
+	top := 40
+	var pad []int
+	for {
+		fd, err := syscall.Open("/dev/null", syscall.O_RDONLY, 0)
+		if err != nil {
+			x.failf("pad: %v", err)
+			return
+		}
+		fdaOwn(fd)
+		pad = append(pad, fd)
+		if fd >= top-1 {
+			break
+		}
+	}
+	lim := syscall.Rlimit{Cur: uint64(top + 3), Max: old.Max} // room for one poller and a half
+	syscall.Setrlimit(syscall.RLIMIT_NOFILE, &lim)
+	n := int(atomic.LoadInt32(&pollmanager.numLoops))
+	x.kind("poller 2") // opened by Run, never registered: still running at the end
+	x.kind("poller 2") // epoll_create works, eventfd fails
+	x.incomplete = true
+	pollmanager.SetNumLoops(n + 3)
+	err := pollmanager.Run()
+	syscall.Setrlimit(syscall.RLIMIT_NOFILE, &old)
+	for _, fd := range pad {
+		fdaClose(fd)
+	}
+	if err == nil {
+		x.failf("manager.Run without descriptors succeeded")
+	}
+}
+
 func fdaScenarios() []fdaScenario {
 	return []fdaScenario{
 		{name: "tcp-echo-client-closes", run: fdaEchoScenario("tcp", false, 1)},
@@ -891,6 +930,7 @@ func fdaScenarios() []fdaScenario {
 		{name: "poller", run: fdaPollerScenario},
 		{name: "rlimit", run: fdaRlimitScenario, noChurn: true},
 		{name: "rlimit-create-listener", run: fdaRlimitListenerScenario, noChurn: true},
+		{name: "rlimit-manager-run", run: fdaRlimitManagerScenario, noChurn: true},
 	}
 }
 
@@ -987,12 +1027,16 @@ func VerifFdAuditMain(args []string) int {
 		final = fdaCensus()
 		return fdaInts(final) == fdaInts(base)
 	}
-	if sc.name == "rlimit-create-listener" {
+	if sc.name == "rlimit-create-listener" || sc.name == "rlimit-manager-run" {
 		fdaWait(same, 100*time.Millisecond) // a descriptor is expected to stay (known finding): do not wait long
 	} else {
 		fdaWait(same, 2*time.Second)
 	}
-	fdaMark("E")
+	if x.incomplete {
+		fdaMark("E open")
+	} else {
+		fdaMark("E")
+	}
 	fdaMark("F %s", fdaInts(final))
 	ops := int64(0)
 	if churn != nil {
